@@ -37,7 +37,7 @@ def match_known(known, pid, v):
     return None
 
 
-def gateway_run(fams, nontrivial_kinds, also=()):
+def gateway_run(fams, nontrivial_kinds, also=(), also_fams=None):
     """also: predicates of other properties that, on these families, are part of this property's statement."""
     def run(ctx):
         viols, cov_f = [], {}
@@ -48,7 +48,7 @@ def gateway_run(fams, nontrivial_kinds, also=()):
             res = pipeline.run_family(fam, ctx.tier, ctx.seed, ctx.workdir, binp=None if ctx.use_cache else ctx.harness(),
                                       use_cache=ctx.use_cache)
             for v in res["violations"]:
-                if v["p"] == ctx.pid or v["p"] in also:
+                if v["p"] == ctx.pid or (v["p"] in also and (also_fams is None or fam in also_fams)):
                     viols.append(v)
             if ctx.pid in ("C15",):
                 for v in res["violations"]:
@@ -130,7 +130,9 @@ PROPS = {
                                    gateway_run(["stream", "win-load", "win-alias"], ["mreq", "cev"], also=("C01",)))),
     "C06": dict(run=gateway_run(["access", "stream", "win-recheck", "win-load"], ["note", "cev"])),
     "C13": dict(run=gateway_run(["query", "win-query", "win-alias"], ["mreq", "mres"], also=("C01",))),
-    "C15": dict(run=gateway_run(["gc", "stream", "access", "cache", "query", "win-load", "win-recheck", "win-query", "win-alias", "win-evict", "win-gc", "win-indirect"], ["cres", "cev"])),
+    "C15": dict(run=gateway_run(["malformed", "gc", "stream", "access", "cache", "query", "win-load", "win-recheck", "win-query", "win-alias", "win-evict", "win-gc", "win-indirect"], ["cres", "cev"],
+                                # containment: on the malformed-message family every other predicate is part of C15
+                                also=("C01", "C02", "C03", "C04", "C05", "C07", "C08", "C09", "C13"), also_fams={"malformed"})),
 }
 
 
@@ -217,7 +219,8 @@ PROPS["C19"] = dict(run=tables.combine(throttle_model, gateway_run(["thr-ref1", 
 TEXT["C19"] = _t("spec/Throttle.tla is model-checked exhaustively (bound, saturation, FIFO hand-over, every added callback eventually starts under any answer order); the real Throttle is driven directly and every Add/Done validated against it; at system level the thrAdd/thrDone notes of replayed schedules with reset/reference throttles of 1 and 2 are checked against the same transition rules, the limit, and emptiness at quiescence.",
                  "TLC exhaustive on Throttle.tla + trace validation of the real Throttle (ThrottleTrace.tla) + observer rules on gateway traces")
 
-PROPS["C20"] = dict(run=gateway_run(["life"], ["stop", "stopped", "sockClosed", "openRefused"]))
+# on the life family the convergence predicate is part of C20: after a restart nothing may be served from the old cache
+PROPS["C20"] = dict(run=gateway_run(["life"], ["stop", "stopped", "sockClosed", "openRefused"], also=("C01",)))
 TEXT["C20"] = _t("Stop and loss of the messaging connection are injected at arbitrary steps of TLC-generated schedules (with requests, loads and evictions outstanding, gates held); the observer requires every socket closed, the cause on the stop channel, completion within the fake-time bounds, refusal while stopped, a working restart, and no panic.",
                  TECH)
 
